@@ -1,37 +1,69 @@
 //! Runs the production code generator (`generate_embedded`) for every flow of `hv_det_flows` and writes one
-//! module per flow to $OUT_DIR/<name>.rs plus $OUT_DIR/all.rs declaring them.
+//! module per flow to $OUT_DIR/<name>.rs plus $OUT_DIR/all.rs declaring them. Inputs are named `a`, `b`
+//! (sorted = positional), the single output is named `out`.
 use hydro_lang::location::Location;
 
 fn main() {
     println!("cargo::rerun-if-changed=build.rs");
     let out_dir = std::env::var("OUT_DIR").unwrap();
     let mut mods: Vec<String> = vec![];
-    let mut emit = |name: &str, code: syn::File| {
-        std::fs::write(format!("{out_dir}/{name}.rs"), prettyplease::unparse(&code)).unwrap();
-        mods.push(name.to_string());
+    let mut failed: Vec<String> = vec![];
+    let mut emit = |name: &str, code: std::thread::Result<syn::File>| match code {
+        Ok(code) => {
+            std::fs::write(format!("{out_dir}/{name}.rs"), prettyplease::unparse(&code)).unwrap();
+            mods.push(name.to_string());
+        }
+        Err(_) => failed.push(name.to_string()),
     };
 
-    // --- one block per flow -------------------------------------------------------------------
-    {
-        let mut flow = hydro_lang::compile::builder::FlowBuilder::new();
-        let process = flow.process::<()>();
-        hv_det_flows::double(process.embedded_input("input")).embedded_output("output");
-        emit("double", flow.with_process(&process, "double").generate_embedded("hv_det_flows"));
+    macro_rules! g1 {
+        ($($name:ident),* $(,)?) => {$(
+            emit(stringify!($name), std::panic::catch_unwind(|| {
+                let mut flow = hydro_lang::compile::builder::FlowBuilder::new();
+                let process = flow.process::<()>();
+                hv_det_flows::$name(process.embedded_input("a")).embedded_output("out");
+                flow.with_process(&process, stringify!($name)).generate_embedded("hv_det_flows")
+            }));
+        )*};
     }
-    {
-        let mut flow = hydro_lang::compile::builder::FlowBuilder::new();
-        let process = flow.process::<()>();
-        hv_det_flows::running_count(process.embedded_input("input")).embedded_output("output");
-        emit("running_count", flow.with_process(&process, "running_count").generate_embedded("hv_det_flows"));
+    macro_rules! g2 {
+        ($($name:ident),* $(,)?) => {$(
+            emit(stringify!($name), std::panic::catch_unwind(|| {
+                let mut flow = hydro_lang::compile::builder::FlowBuilder::new();
+                let process = flow.process::<()>();
+                hv_det_flows::$name(process.embedded_input("a"), process.embedded_input("b"))
+                    .embedded_output("out");
+                flow.with_process(&process, stringify!($name)).generate_embedded("hv_det_flows")
+            }));
+        )*};
     }
-    // -------------------------------------------------------------------------------------------
 
+    g1!(
+        f_map, f_filter, f_flat_map, f_filter_map, f_inspect, f_enumerate, f_scan, f_limit, f_unique,
+        f_chain_src, f_cross_singleton, f_bounded_count_cross, f_flat_unordered,
+        f_tee_merge, f_partition_merge, f_fold, f_fold_comm, f_reduce, f_reduce_comm, f_count, f_max,
+        f_min, f_first, f_last, f_collect_vec, f_sg_map, f_sg_filter, f_opt_unwrap_or, f_opt_map_or,
+        f_threshold, f_join_half, f_anti_join, f_k_fold, f_k_reduce, f_k_entries_map, f_k_map_with_key,
+        f_k_filter, f_k_flat_map, f_k_values, f_k_keys, f_k_first, f_k_value_counts, f_k_enumerate,
+        f_k_scan, f_k_limit, f_k_fold_early_stop, f_k_get, f_k_unique, f_k_filter_key_not_in,
+        f_ks_get_max_key, f_ks_key_count, f_ks_into_singleton, f_ks_unb_into_singleton,
+        f_ks_unb_key_count, f_ks_map, f_ks_first_map_entries,
+        w_max, w_min, w_first, w_last, w_count, w_value_counts, w_weaken_ordering, w_weaken_retries,
+        w_k_weaken, w_make_noop, w_k_make_noop, w_ks_unb_into_singleton, w_ks_unb_key_count,
+        t_max, t_min, t_first, t_last, t_count, t_is_empty, t_value_counts, t_into_singleton,
+        t_get_max_key, t_key_count,
+        m_count, m_fold_monotone, m_bounded_count, m_k_value_counts, m_k_fold_monotone, m_k_fold_keys,
+        m_k_reduce_keys, m_k_first_map, m_k_first_entries, m_k_early_stop_map, m_ks_map_keys,
+    );
+    g2!(f_merge, f_cross_product, f_join, f_join_count, f_kjoin, t_repeat_with_keys);
+
+    assert!(failed.is_empty(), "code generation panicked for flows: {failed:?}");
     let mut all = String::new();
     for m in &mods {
         all.push_str(&format!(
             "#[allow(unused_imports, unused_qualifications, missing_docs, non_snake_case, unused_variables, unused_mut, dead_code)]\npub mod {m} {{ include!(concat!(env!(\"OUT_DIR\"), \"/{m}.rs\")); }}\n"
         ));
     }
+    all.push_str(&format!("pub const N_FLOWS: usize = {};\n", mods.len()));
     std::fs::write(format!("{out_dir}/all.rs"), all).unwrap();
 }
-
